@@ -10,6 +10,7 @@ import (
 	"os"
 	"path/filepath"
 	"strings"
+	"time"
 
 	"verif/explore"
 	"verif/reg"
@@ -43,6 +44,8 @@ type srvSpec struct {
 	failOpn   []string
 	readOnly  bool   // os server: ReadOnly()
 	fixedRoot string // os server: serve this directory (wiped first) instead of a fresh scratch directory
+	maxTx     uint32 // maximum payload option (0 = not given)
+	txFirst   bool   // give the maximum payload option before the allocator option (options are applied in order)
 	dirs      []string
 }
 
@@ -114,8 +117,14 @@ func (s *srvSpec) start() *srvRun {
 			r.h.FailOpen[n] = true
 		}
 		var opts []RequestServerOption
+		if s.maxTx > 0 && s.txFirst {
+			opts = append(opts, WithRSMaxTxPacket(s.maxTx))
+		}
 		if s.alloc {
 			opts = append(opts, WithRSAllocator())
+		}
+		if s.maxTx > 0 && !s.txFirst {
+			opts = append(opts, WithRSMaxTxPacket(s.maxTx))
 		}
 		rs := NewRequestServer(r.conn, r.h.handlers(), opts...)
 		r.alloc = rs.pktMgr.alloc
@@ -131,12 +140,23 @@ func (s *srvSpec) start() *srvRun {
 		for _, d := range s.dirs {
 			os.Mkdir(filepath.Join(r.root, d), 0o755)
 		}
+		fixed := time.Unix(1_000_000_000, 0)
 		for n, c := range s.files {
 			os.WriteFile(filepath.Join(r.root, n), []byte(c), 0o644)
+			os.Chtimes(filepath.Join(r.root, n), fixed, fixed) // attributes in replies must not depend on when the execution ran
+		}
+		for _, d := range s.dirs {
+			os.Chtimes(filepath.Join(r.root, d), fixed, fixed)
 		}
 		opts := []ServerOption{WithServerWorkingDirectory(r.root)}
+		if s.maxTx > 0 && s.txFirst {
+			opts = append(opts, WithMaxTxPacket(s.maxTx))
+		}
 		if s.alloc {
 			opts = append(opts, WithAllocator())
+		}
+		if s.maxTx > 0 && !s.txFirst {
+			opts = append(opts, WithMaxTxPacket(s.maxTx))
 		}
 		if s.readOnly {
 			opts = append(opts, ReadOnly())
